@@ -18,7 +18,7 @@ use tokio::sync::mpsc::Sender;
 use crate::admin::{generate_server_parameters_for_admin, handle_admin};
 use crate::auth_passthrough::refetch_auth_hash;
 use crate::config::{
-    get_config, get_idle_client_in_transaction_timeout, Address, AuthType, PoolMode,
+    get_config, get_idle_client_in_transaction_timeout, Address, AuthType, PoolMode, Role,
 };
 use crate::constants::*;
 use crate::messages::*;
@@ -869,6 +869,9 @@ where
         // Result returned by one of the plugins.
         let mut plugin_output = None;
 
+        // An earlier statement of the batch being buffered has to run on the primary.
+        let mut batch_needs_primary = false;
+
         let client_identifier = ClientIdentifier::new(
             self.server_parameters.get_application_name(),
             &self.username,
@@ -1009,7 +1012,19 @@ where
                                     }
                                 }
 
+                                // A later read of the batch must not move an earlier write of the
+                                // same batch off the primary: the batch runs on one server.
+                                if self.extended_protocol_data_buffer.is_empty() {
+                                    batch_needs_primary = false;
+                                }
+
                                 let _ = query_router.infer(&ast);
+
+                                if query_router.role() == Some(Role::Primary) {
+                                    batch_needs_primary = true;
+                                } else if batch_needs_primary {
+                                    query_router.set_role(Some(Role::Primary));
+                                }
                             }
                             Err(error) => {
                                 warn!(
